@@ -1596,6 +1596,10 @@ class Client:
                 if not self.suppress_exceptions:
                     raise
 
+        if self._state == _ConnectionState.MQTT_CS_DISCONNECTED:
+            # disconnect() was called from on_pre_connect: do not connect.
+            return MQTTErrorCode.MQTT_ERR_NO_CONN
+
         self._sock = self._create_socket()
 
         self._sock.setblocking(False)  # type: ignore[attr-defined]
